@@ -1,0 +1,139 @@
+//go:build verif
+// +build verif
+
+// Restart path (C02: index files are rebuildable caches): the two replay loops that rebuild an
+// index from the level below it.
+//
+//   buildHintFromData    data file -> hint items: every record the scanner delivers from the start
+//                        offset on is turned into exactly one hint item that carries the record's
+//                        key, key hash, version (tombstones included) and offset, in scan order;
+//   updateHtreeFromHint  hint file -> tree: every item the hint reader delivers is applied exactly
+//                        once: a live version points the slot of its key hash at (chunk, offset) with
+//                        the item's version and value hash; a tombstone removes the slot
+//                        unconditionally.
+//
+// Protocol level: "exactly one" is stated with ghost counters (records scanned / items indexed,
+// items read / items applied), the per-step conditions as ghost assertions. Not covered: Bucket.open
+// (which files are replayed in which order), tree dump/load, hint dumping at close, value-hash
+// computation during the rebuild (Decompress/Getvhash are bit-level contracts of C10/C16 that the
+// mathematical-integer mode of these loops cannot use), end-to-end equality of the rebuilt mapping.
+
+package store
+
+import "github.com/douban/gobeansdb/config"
+
+var _ = config.MCConf
+
+// ---------- ghost counters ----------
+
+var ghostScanCount int  // records delivered by DataStreamReader.Next
+var ghostIndexCount int // hint items handed to hintMgr.setItem
+var ghostHintCount int  // items delivered by hintFileReader.next
+var ghostApplyCount int // items applied to the tree - counted by the step assertions lemmaSlotSet / lemmaSlotGone
+
+// ---------- assumed interfaces ----------
+
+//@ func (h *hintMgr) setItem
+//@   props C02
+//@   ints math
+//@   assumed hands the item to the hint buffer of the chunk (verified piece: HintBuffer.Set); counted
+//@   requires it != nil
+//@   modifies ghostIndexCount
+//@   ensures ghostIndexCount == old(ghostIndexCount)+1
+
+// positions a scan that has not delivered anything yet
+//@ func (stream *DataStreamReader) seek
+//@   props C02
+//@   ints math
+//@   assumed fd.Seek on a reader whose buffer is still empty: the scan continues at the offset
+//@   requires stream.fd != nil && stream.rbuf != nil
+//@   modifies stream.offset, ghostFilePos(stream.fd), ghostReader(stream.rbuf)
+//@   ensures stream.offset == offset && streamSync(stream)
+
+//@ func (stream *DataStreamReader) Close
+//@   props C02
+//@   ints math
+//@   assumed closes the scan's file
+//@   modifies ghostFail()
+
+//@ func (reader *hintFileReader) close
+//@   props C02
+//@   ints math
+//@   assumed closes the hint file
+//@   modifies ghostFail()
+
+// unconditional removal (oldPos.ChunkID == -1): the slot of the key hash is gone; nothing else changes
+//@ func (tree *HTree) remove
+//@   props C02
+//@   ints bv
+//@   assumed abstract view of the merkle tree; leaf level (SliceHeader.Remove, remvoeFromLeaf) verified separately (C08)
+//@   requires ki != nil && treeViewOK(tree)
+//@   modifies elems(ghostTreeHas[tree]), elems(ghostTreeVer[tree]), elems(ghostTreeVhash[tree]), elems(ghostTreeChunk[tree]), elems(ghostTreeOff[tree])
+//@   ensures oldPos.ChunkID == -1 ==> !ghostTreeHas[tree][ki.KeyHash]
+//@   ensures forallU64(func(k uint64) bool { return k != ki.KeyHash ==> ghostTreeHas[tree][k] == old(ghostTreeHas[tree][k]) && ghostTreeVer[tree][k] == old(ghostTreeVer[tree][k]) && ghostTreeVhash[tree][k] == old(ghostTreeVhash[tree][k]) && ghostTreeChunk[tree][k] == old(ghostTreeChunk[tree][k]) && ghostTreeOff[tree][k] == old(ghostTreeOff[tree][k]) })
+
+// ---------- verified ----------
+
+//@ func newHintItem
+//@   props C02 C14
+//@   ints both
+//@   ensures fresh(result0) && result0.Keyhash == khash && result0.Ver == ver && result0.Vhash == vhash && result0.Pos.ChunkID == pos.ChunkID && result0.Pos.Offset == pos.Offset && result0.Key == key
+
+// step assertion: the hint item built for a scanned record
+func lemmaHintOfRecord(item *HintItem, rec *Record, khash uint64, ver int32, offset uint32) bool {
+	return true
+}
+
+//@ func lemmaHintOfRecord
+//@   props C02
+//@   ints math
+//@   requires item != nil && item.Keyhash == khash && item.Ver == ver && item.Pos.Offset == offset && item.Pos.ChunkID == 0 && item.Key == string(rec.Key)
+//@   ensures result0
+
+//@ func (bkt *Bucket) buildHintFromData
+//@   props C02
+//@   ints math
+//@   nooverflow
+//@   reliable_io
+//@   unreachable_ok the error returns (opening or reading the data file) are dead under reliable_io
+//@   opaque specValidAt specCRCByte specCRCFold specCRCFoldF
+//@   requires bkt != nil && bkt.datas != nil && bkt.hints != nil && 0 <= chunkID && chunkID < MAX_NUM_CHUNK && mcConfOK() && !ioFailed() && ghostScanEnd != nil
+//@   requires int(start)%256 == 0
+//@   modifies *
+//@   ensures err == nil ==> ghostIndexCount-old(ghostIndexCount) == ghostScanCount-old(ghostScanCount)
+//@   ghost after setItem#1: lemmaHintOfRecord(item, rec, getKeyHash(rec.Key), rec.Payload.Ver, offset)
+//@   loop 1 invariant !ioFailed() && r != nil && r.fd != nil && r.rbuf != nil && streamSync(r) && int(r.offset)%256 == 0 && len(r.maxBodyBuf) == 0 && int64(cap(r.maxBodyBuf)) >= config.MCConf.BodyMax && fileSize(r.fd) <= 1<<32-512 && err == nil
+//@   loop 1 invariant ghostIndexCount-old(ghostIndexCount) == ghostScanCount-old(ghostScanCount)
+
+// step assertions of the tree replay
+func lemmaSlotSet(tree *HTree, item *HintItem, chunkID int) bool { return true }
+func lemmaSlotGone(tree *HTree, item *HintItem) bool             { return true }
+
+//@ func lemmaSlotSet
+//@   props C02
+//@   ints math
+//@   requires item.Ver > 0 && ghostTreeHas[tree][item.Keyhash] && ghostTreeVer[tree][item.Keyhash] == item.Ver && ghostTreeVhash[tree][item.Keyhash] == item.Vhash && ghostTreeChunk[tree][item.Keyhash] == chunkID && ghostTreeOff[tree][item.Keyhash] == item.Pos.Offset
+//@   modifies ghostApplyCount
+//@   ensures result0 && ghostApplyCount == old(ghostApplyCount)+1
+
+//@ func lemmaSlotGone
+//@   props C02
+//@   ints math
+//@   requires item.Ver <= 0 && !ghostTreeHas[tree][item.Keyhash]
+//@   modifies ghostApplyCount
+//@   ensures result0 && ghostApplyCount == old(ghostApplyCount)+1
+
+//@ func (bkt *Bucket) updateHtreeFromHint
+//@   props C02
+//@   ints math
+//@   nooverflow
+//@   reliable_io
+//@   unreachable_ok the error returns are dead under reliable_io
+//@   requires bkt != nil && bkt.htree != nil && treeViewOK(bkt.htree) && confTreeOK() && Conf != nil && !ioFailed()
+//@   requires pathFileSize(path) >= 16      // the hint file has its header (the result of open is not checked by the code)
+//@   modifies *
+//@   ensures err == nil ==> ghostApplyCount-old(ghostApplyCount) == ghostHintCount-old(ghostHintCount)
+//@   ghost after set#1: lemmaSlotSet(tree, item, chunkID)
+//@   ghost after remove#1: lemmaSlotGone(tree, item)
+//@   loop 1 invariant !ioFailed() && r != nil && hintReaderSync(r) && 0 <= r.offset && int(r.offset) <= fileSize(r.fd) && tree == bkt.htree && treeViewOK(tree) && err == nil
+//@   loop 1 invariant ghostApplyCount-old(ghostApplyCount) == ghostHintCount-old(ghostHintCount)
